@@ -1,7 +1,7 @@
 (* C13 — Truncation, pruning and gridding are sound, with known exactness horizons (1-D truncation proved).
    Only statements, each closed by [exact], followed by Print Assumptions. *)
-From Coq Require Import List ZArith.
-From EPG Require Import Scalar QI State Ops Views Trunc.
+From Coq Require Import List ZArith QArith.
+From EPG Require Import Scalar QI State Ops Views Trunc ShiftND ShiftNDProofs PruneProofs.
 Import ListNotations.
 
 (* (1) with a cap m no phase state beyond m is kept (the 1-D state count never exceeds m) *)
@@ -30,3 +30,48 @@ Proof.
   split; [split; reflexivity|]. intros k Hk. unfold gete, init; cbn [equ].
   rewrite ListLemmas.getZ_single. destruct (Z.eqb_spec k 0); [contradiction|reflexivity].
 Qed.
+
+(* ---------------------------------------------------------------- state pruning of the n-D shift (Proofs/PruneProofs.v)
+   [shiftnd negl keys amps dk kdim nmax prune]: [negl] is the tolerance test isclose(x, 0, atol=tol) on one state,
+   [amps] one amplitude list per batch entry; the plan and the relocated amplitudes are those of the unpruned shift *)
+
+(* (4) pruning never removes the zero state *)
+Theorem C13_prune_keeps_centre (S : ScalOps) (negl : triple S -> bool) (keys : list key) (amps : list (list (triple S)))
+  (dk : key) (kdim : nat) (nmax : option Z) :
+  let p := shiftnd_plan keys dk kdim nmax in
+  (0 < length (pk p))%nat ->
+  In (nth ((length (pk p) - 1) / 2) (pk p) []) (fst (shiftnd negl keys amps dk kdim nmax true)).
+Proof. exact (prune_keeps_centre S negl keys amps dk kdim nmax). Qed.
+Print Assumptions C13_prune_keeps_centre.
+
+(* (5) a state is removed only if it is below the tolerance in EVERY batch entry *)
+Theorem C13_prune_removes_only_negligible (S : ScalOps) (negl : triple S -> bool) (keys : list key)
+  (amps : list (list (triple S))) (dk : key) (kdim : nat) (nmax : option Z) (j : nat) :
+  let p := shiftnd_plan keys dk kdim nmax in
+  let outs := map (relocate p) amps in
+  (j < length (pk p))%nat ->
+  nth j (keep_centre (nonzero_mask negl (length (pk p)) outs)) false = false ->
+  forall o, In o outs -> negl (nth j o t0) = true.
+Proof. exact (prune_removes_only_negligible S negl keys amps dk kdim nmax j). Qed.
+Print Assumptions C13_prune_removes_only_negligible.
+
+(* (6) when no state is below the tolerance in all entries (tolerance 0 on non-zero states), pruning is exact *)
+Theorem C13_prune_nothing_negligible_exact (S : ScalOps) (negl : triple S -> bool) (keys : list key)
+  (amps : list (list (triple S))) (dk : key) (kdim : nat) (nmax : option Z) :
+  let p := shiftnd_plan keys dk kdim nmax in
+  let outs := map (relocate p) amps in
+  (forall j, (j < length (pk p))%nat -> exists o, In o outs /\ negl (nth j o t0) = false) ->
+  shiftnd negl keys amps dk kdim nmax true = shiftnd negl keys amps dk kdim nmax false.
+Proof. exact (prune_nothing_negligible S negl keys amps dk kdim nmax). Qed.
+Print Assumptions C13_prune_nothing_negligible_exact.
+
+(* (7) merging wavenumbers that fall in the same grid cell adds their amplitudes exactly: the sums of the F+ and of
+   the Z amplitudes (the value reconstructed at position 0) are those of the unmerged states, for every rounding
+   function, grid and shift (same lemma as C04_merge_adds_exact) *)
+Theorem C13_merge_position0_exact (S : ScalOps) (L : ScalLaws S) (pre : Q -> Q) (rnd : Q -> Z)
+  (wav : list qvec) (dk grid : qvec) (amps : list (triple S)) :
+  length amps = length wav ->
+  ksum (map (@fp S) (merge_amps (merge_plan pre rnd wav dk grid) amps)) = ksum (map (@fp S) amps) /\
+  ksum (map (@fz S) (merge_amps (merge_plan pre rnd wav dk grid) amps)) = ksum (map (@fz S) amps).
+Proof. exact (merge_adds_exact S L pre rnd wav dk grid amps). Qed.
+Print Assumptions C13_merge_position0_exact.
